@@ -19,6 +19,9 @@ pub struct Plan {
     pub metric_limit: AtomicI64,
     /// post-processing of the results of one (candidate, stored track) pair keeps the smallest distance(s) only
     pub post_best: AtomicBool,
+    /// a merge in progress is to be probed: optimise (merge flavour) raises `in_merge` and lingers for a moment
+    pub probe_merge: AtomicBool,
+    pub in_merge: AtomicBool,
 }
 
 impl Plan {
@@ -234,6 +237,10 @@ impl ObservationMetric<Attrs, Val> for Metric {
         _is_merge: bool,
     ) -> Result<()> {
         self.calls += 1;
+        if _is_merge && self.plan.probe_merge.load(Ordering::SeqCst) {
+            self.plan.in_merge.store(true, Ordering::SeqCst);
+            std::thread::sleep(std::time::Duration::from_millis(3));
+        }
         let k = self.plan.opt_fail_at.load(Ordering::SeqCst);
         if k > 0 {
             self.plan.opt_fail_at.store(k - 1, Ordering::SeqCst);
